@@ -94,11 +94,19 @@ struct DeserOpt {
   AJ::JsonVariantConst filter;
   uint8_t limit = 10;
   bool filter_first = false;
+  bool no_limit_option = false;   // call without NestingLimit: ARDUINOJSON_DEFAULT_NESTING_LIMIT applies
   size_t chunk = 7;
 };
 
 template <class... In>
 AJ::DeserializationError deser_call(AJ::JsonDocument& doc, const DeserOpt& o, In&&... in) {
+  if (o.no_limit_option) {
+    if (o.use_filter) {
+      auto f = AJ::DeserializationOption::Filter(o.filter);
+      return o.msgpack ? AJ::deserializeMsgPack(doc, in..., f) : AJ::deserializeJson(doc, in..., f);
+    }
+    return o.msgpack ? AJ::deserializeMsgPack(doc, in...) : AJ::deserializeJson(doc, in...);
+  }
   auto nl = AJ::DeserializationOption::NestingLimit(o.limit);
   if (o.use_filter) {
     auto f = AJ::DeserializationOption::Filter(o.filter);
